@@ -25,6 +25,33 @@ FILES = {
     "timeout": {"quick": 300, "thorough": 3000},
 }
 
+def edit_prop_of(ev):
+    """A rejected paragraph operation falsifies C05, a rejected field edit C04; a field edit after which the
+    printed text no longer re-reads to the reported number of paragraphs is (also) a separation failure (C05)."""
+    if ev.get("op", "").endswith("_para"):
+        return ["C05"]
+    props = ["C04"]
+    post = ev.get("post", {})
+    nonempty = len([p for p in post.get("api", []) if p])
+    if post.get("rr") and len(post.get("rapi", [])) != nonempty:
+        props.append("C05")
+    return props
+
+EDIT_EDGES = {
+    "kind": "tlc_replay", "name": "edges", "module": "MCDeb822Edit.tla", "cfg": "MCDeb822Edit.cfg",
+    "stage": "deb822_edit", "trace_out": True, "coverage": False,
+    "consts": {"quick": {"MaxP": 2, "MaxF": 2, "MaxL": 5, "DBig": 2}, "thorough": {"MaxP": 3, "MaxF": 2, "MaxL": 7, "DBig": 3}},
+    "workers": {"quick": 8, "thorough": 12},
+    "timeout": {"quick": 600, "thorough": 6000},
+    "henv": {"quick": {"VERIF_MAPS": 2, "VERIF_WORKERS": 8}, "thorough": {"VERIF_MAPS": 3, "VERIF_WORKERS": 10}},
+}
+EDIT_TRACE = {
+    "kind": "trace", "name": "histories", "module": "Deb822EditTrace.tla", "cfg": "Deb822EditTrace.cfg",
+    "stage": "deb822_edit", "append_from": "edges", "prop_of": edit_prop_of,
+    "n": {"quick": 60, "thorough": 1500},
+    "timeout": {"quick": 600, "thorough": 3000},
+}
+
 CLASS_ASSUMPTION = ("character predicates induce the 8-class partition {K,D,C,H,S,N,R,U} "
                     "(checked by several representatives per class incl. multi-byte and control characters, not proved for all scalar values)")
 
@@ -64,5 +91,25 @@ PROPS = {
         "rule": "same inputs as C01; agreement judged whenever both real readers accept; joint acceptance judged on every generated well-formed document",
         "exhaustive": {"quick": True, "thorough": True},
         "assumptions": [CLASS_ASSUMPTION],
+    },
+    "C04": {
+        "claimed": True,
+        "technique": "TLA+ editor model (tree-shaped I-layer) checked against the property relation on every edge by TLC; every edge replayed as a history on a live object; recorded histories validated against the trace specification",
+        "level_text": "TLC checks on every edge of the bounded document graph that the implementation-shaped editor step (spec/Deb822Edit.tla) satisfies the property relation (spec/Deb822EditP.tla: list effect on the reported content, identity of every line outside the touched field, strict re-read equals reported content, earlier handles see the edit); every edge is replayed on a live object from its base document through the shortest history and the observed text/content compared with the predicted one; any step that differs, and every step of seeded random histories on repository documents, is judged by the same relation in TLC (trace validation).",
+        "level_note": "bounded graph (<= 2/3 paragraphs x <= 2 fields, 11 base layouts incl. comments, blank runs, missing final newline, duplicate names, built and parsed origins); strict reader trusted for the re-read clause only together with the spec's own reading of the printed lines",
+        "stages": [EDIT_EDGES, EDIT_TRACE],
+        "rule": "every edge (document, operation) of the TLC state graph, replayed with its shortest history on a live object under 2-3 concretisations; plus seeded random histories of 10-60 calls on repository documents; distinct = distinct (base, history, operation) resp. distinct (operation, pre-text)",
+        "exhaustive": {"quick": True, "thorough": True},
+        "assumptions": ["values are non-empty lines not starting with whitespace (continuation lines not with '#'), as the property states"],
+    },
+    "C05": {
+        "claimed": True,
+        "technique": "same TLA+ editor model and trace specification as C04, paragraph operations (add / insert(i) / remove(i), every index in and out of range) interleaved with field edits",
+        "level_text": "as C04 for Deb822::{add_paragraph, insert_paragraph, remove_paragraph}: list semantics on the reported paragraph list (still-empty paragraphs included), only blank lines added or removed, every other line and every comment outside the removed paragraph unchanged, paragraphs stay separated (the spec's own reading of the printed lines equals the reported non-empty paragraphs and the strict reader agrees).",
+        "level_note": "bounded as C04; comment lines attached to the removed paragraph (same run of non-blank lines) may go with it",
+        "stages": [EDIT_EDGES, EDIT_TRACE],
+        "rule": "as C04",
+        "exhaustive": {"quick": True, "thorough": True},
+        "assumptions": [],
     },
 }
